@@ -26,6 +26,8 @@ var c09Steps = []struct {
 	{"[-0.5]", func(x Expr) Expr { return Idx(x, Un("-", N("0.5"))) }},
 	{"[1048577]", func(x Expr) Expr { return Idx(x, N("1048577")) }},
 	{"['a']", func(x Expr) Expr { return Idx(x, S("a")) }},
+	// an index whose magnitude no integer type holds: still "before the start", an error and not a crash
+	{"[-1e19]", func(x Expr) Expr { return Idx(x, Un("-", N("10000000000000000000"))) }},
 }
 
 var c09Roots = []string{"$", "d", "f"}
@@ -453,7 +455,7 @@ func init() {
 	nSt := len(c09Steps)
 	fw.Register(addTok(tokFramesC09, &fw.Prop{
 		ID: "C09",
-		Rule: "documents (all trees of depth <= 1, thorough also depth 2) x target paths of <= 3 steps over .a .b ['a'] and the indices 0 1 -1 2 5 0.9 -0.5 1048577, rooted at $, at a variable aliasing the document and at a fresh variable, x 7 stores (=, +=, prefix and postfix ++/--, storing a container) and 9 reads (plain, non-mutating methods, operators); " +
+		Rule: "documents (all trees of depth <= 1, thorough also depth 2) x target paths of <= 3 steps over .a .b ['a'] and the indices 0 1 -1 2 5 0.9 -0.5 1048577 -10^19, rooted at $, at a variable aliasing the document and at a fresh variable, x 7 stores (=, +=, prefix and postfix ++/--, storing a container) and 9 reads (plain, non-mutating methods, operators); " +
 			"after the operation the program shows the result, $, the alias and the fresh variable, ENDFILE shows $ again and the JSON output is compared with the model's document; " +
 			"all histories of <= L statements over 14 aliasing / mutating statements (copy, share, index and member stores, push/pop through aliases, a mutating callee, loop variables, padding) on three documents, showing every variable after every statement; all histories of L statements over 12 object statements (inserts through an alias or a callee, iteration and printing through the other name, pluck, rebinding); " +
 			"all histories of L' statements over 26 statements drawn from every corner of the language (arrays, objects, strings, pluck, split, sort, match, for-in, functions with default parameters, printf, stores into $), run once per element of a two-element input; every target path of <= 2 steps x operation also as ONE expression site over the sequence of all documents (forward and reversed); COPY TIME: 5 scalar locations x 7 effects x 10 list forms (array / object literal, arguments of a user function, printf and chained push) holding read, effect, read of one location, and calls returning a global by value next to calls changing it in 10 forms; oracle: whole-store equality with the reference interpreter (DESIGN.md 3.10); states = (read/write, root, path length, outcome); non-trivial = same",
